@@ -549,6 +549,35 @@ func TestC08(t *testing.T) {
 			unit(cfg.Name, hp)
 		}
 	}
+	if w.Thorough() {
+		// all ordered pairs (back-to-back and in sequence) over every (method, shape) with two
+		// transaction-id forms and two sources, in the two richest configurations
+		var core []string
+		for _, m := range c08Methods {
+			for _, sh := range c08Shapes(m) {
+				if strings.HasPrefix(sh, "tokened") {
+					continue
+				}
+				core = append(core, c08Query{m, sh, "aa", "v4"}.letter(), c08Query{m, sh, "hi", "v6"}.letter())
+			}
+		}
+		w.Bound("thorough_pair_core", len(core))
+		for _, cfgName := range []string{"default", "peerstore"} {
+			for _, a := range core {
+				var hp [][]string
+				for _, b := range core {
+					qa, _ := parseC08Query(a)
+					qb, _ := parseC08Query(b)
+					// reactions are attributed by (destination, t): concurrent pairs need distinct ones
+					if qa.tidName != qb.tidName || qa.srcName != qb.srcName {
+						hp = append(hp, []string{"pair:" + a + "+" + b})
+					}
+					hp = append(hp, []string{a, b})
+				}
+				unit(cfgName, hp)
+			}
+		}
+	}
 	if c08SyncTier != nil {
 		c08SyncTier(t, w, &idx)
 	}
